@@ -108,11 +108,13 @@ static void handler(const unsigned char *req, size_t n, vbuf *resp, void *user) 
 		if (level >= 250) shape = 0;
 		/* the aggregator hashes as if the client's subtree root sat at `level`, but reports the first level
 		 * correction relative to that root; the client adds the requested level back */
-		rp_aggregate(&sig, hash, hl, level, shape, S.tail, 1700000000ULL, 1700000000ULL + 86400 * 3);
+		/* level-correction-wraps: the aggregator hashed as if the subtree root sat at level 0; the correction it reports (that of level 0
+		 * minus the requested level, an 8-byte value just below 2^64) comes out right again when the client adds the requested level */
+		rp_aggregate(&sig, hash, hl, (S.behaviour == B_LC_WRAP && r.has_level && r.level > 0) ? 0 : level, shape, S.tail, 1700000000ULL, 1700000000ULL + 86400 * 3);
 		if (S.behaviour == B_INCONSISTENT) break_body(&sig, S.sub);
 		sig.ch[0].links[0].level_corr -= level;
 		/* a first level correction just below 2^64: adding the requested level wraps it around to a small, plausible value */
-		if (S.behaviour == B_LC_WRAP && r.has_level && r.level > 0) sig.ch[0].links[0].level_corr = (uint64_t)0 - r.level + (uint64_t)(S.sub % 2 ? r.level - 1 : 0);
+		if (S.behaviour == B_LC_WRAP && r.has_level && r.level > 0 && S.sub % 2) sig.ch[0].links[0].level_corr = (uint64_t)0 - 1;   /* sub 1: 2^64-1 whatever was hashed */
 		if (S.behaviour != B_NO_CHAINS) {
 			rp_sig_body(&sig, &body);
 			if (S.behaviour == B_REORDERED) chains_top_first(&body);
@@ -287,6 +289,11 @@ static void one_case(int iface, int transport, int version, int doc_alg, uint64_
 			rs_document_hash(&S.client_view, &dh, &dl);
 			expect_ok = !(v.violated | v.uncomputable) && dl == hhl && memcmp(dh, hh, dl) == 0;
 		}
+		vf_outcome("body:%s:%s", BNAME[behaviour], expect_ok ? "acceptable" : "unacceptable");
+	}
+	if (behaviour == B_LC_WRAP && level > 0) {
+		/* acceptable only when nothing wrapped: the correction hashed for level 0 already covers the requested level */
+		expect_ok = sub % 2 == 0 && S.have_view && rs_first_level_corr(&S.client_view) >= level && rs_first_level_corr(&S.client_view) <= 255;
 		vf_outcome("body:%s:%s", BNAME[behaviour], expect_ok ? "acceptable" : "unacceptable");
 	}
 	check_result(res, sig, expect_ok, doc_alg, seed, (iface == 1 || iface == 5) ? 0 : level, what);
